@@ -16,6 +16,7 @@
 from __future__ import annotations
 
 import asyncio
+import os
 import pathlib
 from asyncio.log import logger
 from collections.abc import AsyncIterable
@@ -194,9 +195,13 @@ class Controller(AbstractController):
         if not path.parent.exists():
             path.parent.mkdir(parents=True, exist_ok=True)
 
+        # Write to a temporary file next to the target and move it into place,
+        # so an interrupted save can never leave a truncated pairing file behind.
+        temp_filename = f"{filename}.tmp"
         try:
-            with open(filename, mode="w", encoding="utf-8") as output_fp:
+            with open(temp_filename, mode="w", encoding="utf-8") as output_fp:
                 output_fp.write(hkjson.dumps_indented(data))
+            os.replace(temp_filename, filename)
         except PermissionError:
             raise ConfigSavingError(f'Could not write "{filename}" due to missing permissions')
         except FileNotFoundError:
